@@ -58,9 +58,9 @@ var Check = &run.Check{
 
 func runCase(c *run.Ctx, o *run.Outcome) {
 	r := c.Rng
-	opts := modelgen.Opts{MaxClasses: 8, MaxMethods: 40, MaxOut: 6, Quotes: true, Overloads: true, DefaultPkg: true, Kinds: true, CaseTwins: true, OddRunes: true}
+	opts := modelgen.Opts{MaxClasses: 8, MaxMethods: 40, MaxOut: 6, Quotes: true, Overloads: true, DefaultPkg: true, Kinds: true, CaseTwins: true, OddRunes: true, Ctors: true, PlatformLikePkgs: true}
 	if r.Chance(1, 2) {
-		opts = modelgen.Opts{MaxClasses: 4, MaxMethods: 10, MaxOut: 3, Quotes: true, Overloads: true, DefaultPkg: true, Kinds: true, CaseTwins: true, OddRunes: true}
+		opts = modelgen.Opts{MaxClasses: 4, MaxMethods: 10, MaxOut: 3, Quotes: true, Overloads: true, DefaultPkg: true, Kinds: true, CaseTwins: true, OddRunes: true, Ctors: true, PlatformLikePkgs: true}
 	}
 	m := modelgen.Generate(r.Fork(), opts)
 	deps := common.ToCoca(m)
@@ -108,6 +108,14 @@ func runCase(c *run.Ctx, o *run.Outcome) {
 		o.Count("cli_cases", 1)
 		dir := c.Scratch()
 		common.WriteJSON(filepath.Join(dir, "deps.json"), deps)
+		if c.Index/cliEvery(c.Tier)%2 == 1 {
+			// an earlier run of the same command in the same working directory, on a bigger model: the reports of
+			// the run that is judged must not contain anything of it
+			big := modelgen.Generate(r.Fork(), modelgen.Opts{MaxClasses: 8, MaxMethods: 60, MaxOut: 8, Quotes: true})
+			common.WriteJSON(filepath.Join(dir, "earlier.json"), common.ToCoca(big))
+			common.RunCLI(c.CocaBin, dir, nil, "rcall", "-c", modelgen.PickRoot(r, big), "-d", "earlier.json")
+			o.Count("cli_cases_after_an_earlier_run_in_the_same_directory", 1)
+		}
 		res := common.RunCLI(c.CocaBin, dir, nil, "rcall", "-c", target, "-d", "deps.json")
 		if res.TimedOut {
 			o.SetInconclusive("cli watchdog")
@@ -125,7 +133,7 @@ func runCase(c *run.Ctx, o *run.Outcome) {
 		dot = string(b)
 		mb, err := ioutil.ReadFile(filepath.Join(dir, "coca_reporter", "rcallmap.json"))
 		if err != nil || json.Unmarshal(mb, &observed) != nil {
-			o.Violate("cli-no-map", "`coca rcall` wrote no readable rcallmap.json")
+			o.Violate("cli-no-map", "`coca rcall` wrote no readable rcallmap.json (%d bytes): %v", len(mb), json.Unmarshal(mb, &observed))
 			return
 		}
 		// `coca call -l`: the reverse edges are appended to the forward graph
